@@ -3,9 +3,9 @@ SPEC = dict(
     level="proof",
     observers=[
         dict(cmd="obs_queue", args=["-queue", "ring"], imports=["Model.Ring"], case_type="Ring.case", check="Ring.check_case",
-             n={"quick": 400, "thorough": 15000}, shard=50, timeout={"quick": 600, "thorough": 3000}),
+             n={"quick": 600, "thorough": 15000}, shard=50, timeout={"quick": 600, "thorough": 3000}),
         dict(cmd="obs_queue", args=["-queue", "flow"], imports=["Model.Flow"], case_type="Flow.case", check="Flow.check_case",
-             n={"quick": 250, "thorough": 10000}, shard=50, timeout={"quick": 600, "thorough": 3000}),
+             n={"quick": 400, "thorough": 10000}, shard=50, timeout={"quick": 600, "thorough": 3000}),
     ],
     rule="real ring.go / flowbuffer.go with 1-12 concurrent putters (PutOne and PutMulti, up to 5 commands each), one writer loop "
          "(NextWriteCmd / WaitForWrite) and one reader loop (NextResultCh / send / FinishResult, with spurious polls) on queues of 2 "
